@@ -10,10 +10,24 @@ from ..rig import Rig
 from . import base
 
 
+PACKS = {"n": 0}
+
+
 def set_pack_limit(v):
     from asimap.mbox import Mailbox
 
     Mailbox.FOLDER_SIZE_PACK_LIMIT = v
+    if not getattr(Mailbox, "_verif_pack_counted", False):
+        orig = Mailbox._pack_if_necessary
+
+        async def counted(self):
+            r = await orig(self)
+            if r:
+                PACKS["n"] += 1
+            return r
+
+        Mailbox._pack_if_necessary = counted
+        Mailbox._verif_pack_counted = True
 
 
 class HistProp:
@@ -33,6 +47,9 @@ class HistProp:
 
     def nontrivial(self, w):
         return True
+
+    async def post_step(self, w, rnd):
+        return None
 
     def sample(self, w):
         return {"steps": w.steps[:40], "stats": {k: v for k, v in w.stats.items() if not k.startswith("flush_state")}}
@@ -58,6 +75,7 @@ class HistProp:
         counts = ctx["counts"]
         pack = self.pack_limits[k % len(self.pack_limits)]
         set_pack_limit(pack)
+        ctx["_packs0"] = PACKS["n"]
         rig = await Rig(ctx["dir"] + "/mail", loop).start()
         opts = dict(self.opts, cid_prefix=f"h{k}-")
         w = World(rig, rnd, opts)
@@ -80,6 +98,7 @@ class HistProp:
                     for i in range(nsteps):
                         op = await step(w, rnd, weights, self.names, dict(opts, nsessions=2))
                         counts["op:" + op] += 1
+                        await self.post_step(w, rnd)
                         if cadence and (i + 1) % cadence == 0:
                             await w.observe(full=opts.get("observe_full", False))
                 await final_sync(w)
@@ -93,6 +112,8 @@ class HistProp:
             set_pack_limit(100)
         for kk, v in w.stats.items():
             counts[kk] += v
+        counts["packs"] += PACKS["n"] - ctx.get("_packs0", 0)
+        w.stats["packs"] = PACKS["n"] - ctx.get("_packs0", 0)
         for kk, v in w.known_hits.items():
             counts["known:" + kk] += v
         counts["wire_errors"] += len(rig.wire_errors)
@@ -113,9 +134,11 @@ class HistProp:
             for s in rig.sessions[-4:]:
                 tail.append({s.name: s.log[-12:]})
             return [Case.make(cid, VIOLATED, spec=ctx["spec"], nontrivial=nontriv, key=key, sample=sample,
-                              witness={"kind": v["kind"], "detail": v["detail"], "props": v["props"], "history": w.steps[-40:], "sessions": tail,
+                              witness={"kind": v["kind"], "detail": v["detail"], "props": v["props"], "data": v.get("data") or {}, "history": w.steps[-40:], "sessions": tail,
                                        "log": [x[2][:200] for x in rig.log_records[-5:]], "pack_limit": pack})]
-        return [Case.make(cid, HELD, spec=ctx["spec"], nontrivial=nontriv, key=key, sample=sample)]
+        c = Case.make(cid, HELD, spec=ctx["spec"], nontrivial=nontriv, key=key, sample=sample)
+        c["known"] = [m for m in w.known_hits if m.startswith(self.prop + "-")]
+        return [c]
 
 
 def module_api(hp, quick, thorough, rule, floors, assumptions=None, classify=None, level="exploration"):
